@@ -194,7 +194,7 @@ func run(cs caseSpec) (res result, err error) {
 	} else {
 		res.classes = append(res.classes, "verify-on-setup-connection")
 	}
-	if verr := refctl.VerifyAndSecure(cl, ctrl, sr.AccLTPK, append(cs.Entropy, 1)); verr != nil {
+	if verr := refctl.VerifyAndSecureAs(cl, ctrl, sr.AccLTPK, sr.AccID, append(cs.Entropy, 1)); verr != nil {
 		return res, fmt.Errorf("pair-verify: %v", verr)
 	}
 	cl.FrameSizes = cs.OutFrames
@@ -207,7 +207,7 @@ func run(cs caseSpec) (res result, err error) {
 		case "re-verify":
 			// pair-verify again over the encrypted connection: the whole exchange, including the accessory's
 			// last message, travels under the session in use; the new session's keys apply afterwards
-			if verr := refctl.VerifyAndSecure(cl, ctrl, sr.AccLTPK, append(cs.Entropy, 2, byte(i))); verr != nil {
+			if verr := refctl.VerifyAndSecureAs(cl, ctrl, sr.AccLTPK, sr.AccID, append(cs.Entropy, 2, byte(i))); verr != nil {
 				return res, fmt.Errorf("request %d: pair-verify repeated on the encrypted connection: %v", i, verr)
 			}
 			r, derr := cl.Do("GET", fmt.Sprintf("/characteristics?id=%d.%d", textAID, textIID), "", nil)
@@ -380,7 +380,10 @@ func genSpec(t *rapid.T) caseSpec {
 	cs.CtrlID = strings.ToValidUTF8(cs.CtrlID, "?")
 	cs.CtrlSeed = rapid.SliceOfN(rapid.Byte(), 32, 32).Draw(t, "seed")
 	cs.Entropy = rapid.SliceOfN(rapid.Byte(), 32, 32).Draw(t, "entropy")
-	switch rapid.IntRange(0, 3).Draw(t, "presetid") {
+	switch rapid.IntRange(0, 4).Draw(t, "presetid") {
+	case 4:
+		// identities as older versions of the library (lower case) or other tools stored them
+		cs.AccID = rapid.OneOf(rapid.StringMatching(`[0-9a-f]{2}:[0-9a-f]{2}:[0-9a-f]{2}:[0-9a-f]{2}:[0-9a-f]{2}:[0-9a-f]{2}`), rapid.StringMatching(`[0-9a-fA-F]{2}(:[0-9a-fA-F]{2}){5}`)).Draw(t, "accid-as-stored")
 	case 0:
 		cs.AccID = strings.ToUpper(rapid.StringMatching(`[0-9a-f]{2}:[0-9a-f]{2}:[0-9a-f]{2}:[0-9a-f]{2}:[0-9a-f]{2}:[0-9a-f]{2}`).Draw(t, "accid"))
 	case 1, 2:
@@ -439,6 +442,9 @@ func TestC04Prop(t *testing.T) {
 		if strings.HasPrefix(cs.AccID, "C4:04") {
 			cls = append(cls, "accessory-id:recurring-with-other-code")
 		}
+		if cs.AccID != strings.ToUpper(cs.AccID) {
+			cls = append(cls, "accessory-id:lower-case-letters")
+		}
 		if cs.OutFrames != nil {
 			cls = append(cls, "controller-sends-short-frames")
 		}
@@ -488,6 +494,7 @@ func TestC04Regress(t *testing.T) {
 		caseSpec{Code: "11122333", CtrlID: "first", CtrlSeed: seed, Entropy: seed, AccID: "C4:04:00:00:00:09", WrongCode: "44455666"},
 		caseSpec{Code: "44455666", CtrlID: "second", CtrlSeed: seed, Entropy: seed, AccID: "C4:04:00:00:00:09", Requests: []req{{"get-text", 0}}},
 		caseSpec{Code: "44455666", CtrlID: "third", CtrlSeed: seed, Entropy: seed, AccID: "C4:04:00:00:00:09", WrongCode: "11122333"},
+		caseSpec{Code: "22233444", CtrlID: "lower", CtrlSeed: seed, Entropy: seed, AccID: "c4:2f:90:1a:7b:e3", Requests: []req{{"get-text", 0}}},
 		caseSpec{Code: "55566777", CtrlID: "again", CtrlSeed: seed, Entropy: seed, Requests: []req{{"get-text", 0}, {"re-verify", 0}, {"put-text", 1500}, {"re-verify", 0}, {"get-text", 0}}},
 	)
 	for i, cs := range cases {
